@@ -3,6 +3,9 @@
 use crate::engine::Ctx;
 
 pub mod c06;
+pub mod c07;
+pub mod c08;
+pub mod c09;
 pub mod c10;
 pub mod c11;
 pub mod c12;
@@ -12,8 +15,9 @@ pub mod c15;
 pub mod c16;
 pub mod c17;
 pub mod c20;
+pub mod fmt;
 
-pub const ALL: &[&str] = &["C06", "C10", "C11", "C12", "C13", "C14", "C15", "C16", "C17", "C20"];
+pub const ALL: &[&str] = &["C06", "C07", "C08", "C09", "C10", "C11", "C12", "C13", "C14", "C15", "C16", "C17", "C20"];
 
 pub fn exists(p: &str) -> bool {
     ALL.contains(&p)
@@ -22,6 +26,9 @@ pub fn exists(p: &str) -> bool {
 pub fn run(p: &str, ctx: &mut Ctx) {
     match p {
         "C06" => c06::run(ctx),
+        "C07" => c07::run(ctx),
+        "C08" => c08::run(ctx),
+        "C09" => c09::run(ctx),
         "C10" => c10::run(ctx),
         "C11" => c11::run(ctx),
         "C12" => c12::run(ctx),
@@ -39,6 +46,9 @@ pub fn run(p: &str, ctx: &mut Ctx) {
 pub fn meta(p: &str) -> (String, Vec<String>) {
     let (r, a): (&str, &[&str]) = match p {
         "C06" => (c06::RULE, c06::ASSUMPTIONS),
+        "C07" => (c07::RULE, c07::ASSUMPTIONS),
+        "C08" => (c08::RULE, c08::ASSUMPTIONS),
+        "C09" => (c09::RULE, c09::ASSUMPTIONS),
         "C10" => (c10::RULE, c10::ASSUMPTIONS),
         "C11" => (c11::RULE, c11::ASSUMPTIONS),
         "C12" => (c12::RULE, c12::ASSUMPTIONS),
